@@ -6,6 +6,7 @@ import Driver.Drv.GetBlock
 import Driver.Drv.GetCFilter
 import Driver.Drv.Import
 import Driver.Drv.Lru
+import Driver.Drv.Net
 import Driver.Drv.PushTx
 import Driver.Drv.Race
 import Driver.Drv.Rescan
@@ -24,6 +25,7 @@ def drivers : List (String × CaseFn) := [
   ("getcfilter", Driver.Drv.GetCFilter.runCase),
   ("import", Driver.Drv.Import.runCase),
   ("lru", Driver.Drv.Lru.runCase),
+  ("net", Driver.Drv.Net.runCase),
   ("pushtx", Driver.Drv.PushTx.runCase),
   ("race", Driver.Drv.Race.runCase),
   ("rescan", Driver.Drv.Rescan.runCase),
